@@ -106,6 +106,18 @@ def entries():
         "SO3.Rx*point": ([A], lambda a: SO3.Rx(a) * [1, 2, 3]),
         "SE3.Rx*SE3.Rx.inv": ([A], lambda a: SE3.Rx(a) * SE3.Rx(a).inv()), "SE3.Rz**2": ([A], lambda a: SE3.Rz(a) ** 2),
         "SE3.Tx/SE3.Rz": ([A, L], lambda a, x: SE3.Tx(x) / SE3.Rz(a)),
+        # points with symbolic coordinates in every container form (an ndarray holding symbols has dtype object)
+        "SE3*point[list]": ([A, L, L, L], lambda a, x, y, z: (SE3.Rx(a) * SE3.Tx(2)) * [x, y, z]),
+        "SE3*point[tuple]": ([A, L, L, L], lambda a, x, y, z: (SE3.Rx(a) * SE3.Tx(2)) * (x, y, z)),
+        "SE3*point[ndarray]": ([A, L, L, L], lambda a, x, y, z: (SE3.Rx(a) * SE3.Tx(2)) * np.array([x, y, z])),
+        "SE3*point[column]": ([A, L, L, L], lambda a, x, y, z: (SE3.Rx(a) * SE3.Tx(2)) * np.array([[x], [y], [z]])),
+        "SO3*point[ndarray]": ([A, L, L, L], lambda a, x, y, z: SO3.Ry(a) * np.array([x, y, z])),
+        "SE3*points[3xN]": ([A, L, L, L], lambda a, x, y, z: (SE3.Rz(a) * SE3.Ty(1)) * np.array([[x, 1, 0], [y, 2, z], [z, 3, x]])),
+        # a pose with a scalar: element-wise arithmetic on the matrix (a plain array), the scalar symbolic or not
+        "SE3*scalar": ([A, L], lambda a, s_: SE3.Rx(a) * s_), "scalar*SE3": ([A, L], lambda a, s_: s_ * SE3.Rx(a)),
+        "SE3/scalar": ([A, L], lambda a, s_: SE3.Rx(a) / (s_ * s_ + 1)),          # the divisor never vanishes
+        "SO3+scalar": ([A, L], lambda a, s_: SO3.Rz(a) + s_),
+        "SO3-scalar": ([A, L], lambda a, s_: SO3.Rz(a) - s_),
     }
     return E
 
@@ -191,6 +203,9 @@ def evaluate(arr, subs):
     return out
 
 
+NRANDOM = [4]          # random substitution points per entry (40 in the thorough tier)
+
+
 def points(kinds, rng):
     """special angles and lengths, then random ones"""
     sa = [0.0, math.pi / 2, -math.pi / 2, math.pi, 0.3]
@@ -198,7 +213,7 @@ def points(kinds, rng):
     pts = []
     for i in range(5):
         pts.append([(sa[(i + k) % 5] if kd == "angle" else sl[(i + 2 * k) % 5]) for k, kd in enumerate(kinds)])
-    for _ in range(4):
+    for _ in range(NRANDOM[0]):
         pts.append([(rng.uniform(-2 * math.pi, 2 * math.pi) if kd == "angle" else rng.uniform(-10, 10) * 10 ** rng.randint(-3, 3))
                     for kd in kinds])
     return pts
@@ -319,6 +334,7 @@ def exact_constructors(j, cases):
 
 def run(tier):
     j = Judge(PID)
+    NRANDOM[0] = 40 if tier == "thorough" else 4
     rng = random.Random(common.seed() + 16)
     ra = run_tlc("MC_Api", "Api", timeout=300)
     calls = [e["call"] for e in ra.json if "call" in e and e["call"]["op"] == "sym"]
